@@ -20,7 +20,7 @@ func (propC04) ID() string { return "C04" }
 
 var c04Kinds = []string{"ok", "refuse", "rst", "blackhole", "fin", "garbage"}
 var c04Balancers = []string{"priority", "round-robin", "least-connections"}
-var c04HistKinds = []string{"fin", "garbage", "rst"}
+var c04HistKinds = []string{"fin", "garbage", "rst", "client-abort"}
 
 func asserted(kind string) bool {
 	return kind == "refuse" || kind == "rst" || kind == "blackhole"
@@ -44,6 +44,9 @@ func c04Resp(kind, tag string) Resp {
 		return Resp{Status: 200, Tag: tag, Chunks: []Chunk{{N: 200}}, Fault: &Fault{At: "before-headers", Kind: "fin"}}
 	case "garbage":
 		return Resp{Kind: "raw", Raw: "SMTP 220 ready\r\n\x00\x01\x02 not http\r\n\r\n"}
+	case "client-abort":
+		// nothing wrong with the backend: a large answer whose client hangs up in the middle of it
+		return Resp{Status: 200, Tag: tag, Chunks: []Chunk{{N: 262144}, {N: 262144}, {N: 262144}, {N: 262144}, {N: 262144}, {N: 262144}}}
 	}
 	return Resp{Status: 200, Tag: tag, Chunks: []Chunk{{N: 150}, {N: 350}}, Headers: [][2]string{{"X-E2E-" + tag, "v-" + tag}}}
 }
@@ -131,6 +134,9 @@ func (propC04) Gen(seed uint64, tier string, idx int) *Plan {
 	for j := 0; j < hist+r.Pick(2); j++ {
 		p.Ops = append(p.Ops, ClientOp{ID: id, At: time.Duration(j) * 300 * time.Millisecond, Method: "POST", Path: "/olla/proxy/v1/chat/completions",
 			Body: BodySpec{Kind: "json", N: 120, Model: "m1"}, Deadline: 15 * time.Second, Expect: "history"})
+		if hk == "client-abort" {
+			p.Ops[len(p.Ops)-1].Abort = &Abort{At: "resp", K: 20000 + r.Pick(200000), Kind: pickS(r, []string{"rst", "rst", "fin"})}
+		}
 		id++
 	}
 	// main ops: sequential; the third lands after the breaker time-out
@@ -416,6 +422,38 @@ func (propC04) Check(r *Run) []Violation {
 		st, ok := statusBefore(r.Stack.Rec, e.Backend, cr.StartStep, cr.StartAt)
 		if ok && !routableStr(st) {
 			add("C04/traffic-to-failed-endpoint", "exchange %s for op %d reached %s although it was %q before the request started", exchangeID(e), cr.OpID, e.Backend, st)
+		}
+	}
+	// "an endpoint that failed at connection level is taken out of rotation": and only such an endpoint. A
+	// request whose *client* went away while a reachable backend was answering it is no failure of that backend;
+	// taking it out of rotation makes the next client's request fail with an untried, working candidate.
+	for _, w := range r.Stack.Rec.Repo {
+		if w.Who != "proxy" || w.Routable || w.Prev == w.Status {
+			continue
+		}
+		backendFailed := false
+		var abortedOp *ClientResult
+		for _, e := range r.Exchanges {
+			if e.Backend != w.Name || e.Kind != "proxy" || e.ArrivedAt > w.At || w.At-e.ArrivedAt > 30*time.Second {
+				continue
+			}
+			if e.FaultFired != "" {
+				backendFailed = true
+			}
+			for _, c := range r.Results {
+				if c.Nonce == e.Nonce && c.Aborted != "" && c.DoneAt <= w.At && w.At-c.DoneAt < 2*time.Second {
+					abortedOp = c
+				}
+			}
+		}
+		for _, d := range dials {
+			if d.Role == "proxy" && hostToName[d.Target] == w.Name && d.Outcome != "ok" && d.At <= w.At && w.At-d.At < 30*time.Second {
+				backendFailed = true
+			}
+		}
+		if !backendFailed && abortedOp != nil {
+			add("C04/endpoint-out-of-rotation-without-a-failure", "endpoint %s was marked %s by the request path at %s although nothing failed on its side: it was answering op %d when that client hung up (%s) %s earlier", w.Name, w.Status, w.At, abortedOp.OpID, abortedOp.Aborted, w.At-abortedOp.DoneAt)
+			break
 		}
 	}
 	return out
